@@ -827,7 +827,7 @@ func c09WitnessOf(r *core.Run, idx int, b c09Blob, rec c09Rec) c09Witness {
 	if len(b.Data) <= 300000 {
 		w.File = base64.StdEncoding.EncodeToString(b.Data)
 	} else {
-		dir := core.VerifDir() + "/replays/" + r.Prop
+		dir := core.OutDir() + "/replays/" + r.Prop
 		_ = os.MkdirAll(dir, 0o755)
 		w.Path = fmt.Sprintf("%s/witness-%016x.bin", dir, fnv64(b.Data))
 		_ = os.WriteFile(w.Path, b.Data, 0o644)
